@@ -23,6 +23,9 @@ What is read off the AST of /repo (never by importing copulas):
 * `GaussianMultivariate.probability_density` / `cumulative_distribution`: `self.check_fit()`;
   `transformed = self._transform_to_normal(X)`; `return stats.multivariate_normal.pdf(transformed,
   cov=self.correlation, allow_singular=<bool>)` resp. `.cdf(transformed, cov=self.correlation)`;
+* `GaussianMultivariate._fit_columns` / `fit` / `_validate_input`: `self.columns, self.univariates` are the training
+  table's columns in TABLE order, one pass over `X.items()` (emitted as `fitColumns`); a sort / filter of the columns
+  is `Untranslatable` (a plain array query is labelled with `self.columns`, so this order IS the array convention);
 * `Multivariate.log_probability_density` (multivariate/base.py): `return np.log(self.probability_density(X))`,
   and the aliases `pdf` / `cdf`.
 """
@@ -197,6 +200,60 @@ def _not_overridden(cls, names):
             raise Untranslatable(f'{GC_FILE}:{n.lineno}', f'GaussianMultivariate overrides {n.name}')
 
 
+def _no_log(body):
+    return [n for n in strip_doc(body)
+            if not (isinstance(n, ast.Expr) and isinstance(n.value, ast.Call) and _src(n.value.func).startswith('LOGGER.'))]
+
+
+def _fit_columns(cls):
+    """`_fit_columns`: ONE pass over `X.items()` (the training table's columns, in table order) appending the
+    column name and its fitted univariate; `fit` stores exactly that pair; `_validate_input` only wraps a
+    non-DataFrame in `pd.DataFrame(X)`.  Any re-ordering / filtering of the columns is Untranslatable."""
+    fn = find_method(cls, '_fit_columns')
+    where = f'{GC_FILE}:_fit_columns'
+    if [a.arg for a in fn.args.args] != ['self', 'X'] or fn.decorator_list:
+        raise Untranslatable(f'{GC_FILE}:{fn.lineno}', 'signature is not `_fit_columns(self, X)` without decorators')
+    body = _no_log(fn.body)
+    if len(body) != 4 or not isinstance(body[2], ast.For) or body[2].orelse:
+        raise Untranslatable(f'{GC_FILE}:{fn.lineno}', '_fit_columns is not `columns = []; univariates = []; for …; return …`')
+    _expect(body[0], 'columns = []', where, 'accumulator')
+    _expect(body[1], 'univariates = []', where, 'accumulator')
+    loop = body[2]
+    _expect(loop.target, '(column_name, column)', where, 'loop target')
+    _expect(loop.iter, 'X.items()', where, 'loop source (must be the training table columns in TABLE order)')
+    lb = _no_log(loop.body)
+    want = ['distribution = self._get_distribution_for_column(column_name)',
+            'univariate = self._fit_column(column, distribution, column_name)',
+            'columns.append(column_name)', 'univariates.append(univariate)']
+    if len(lb) != len(want):
+        raise Untranslatable(f'{GC_FILE}:{loop.lineno}', f'_fit_columns loop body has {len(lb)} statements, expected {len(want)}')
+    for node, text in zip(lb, want):
+        _expect(node, text, where, 'loop body')
+    _expect(body[3], 'return (columns, univariates)', where, 'result')
+    # fit stores the pair, computed from the validated input
+    fit = find_method(cls, 'fit')
+    fb = [_src(n) for n in _no_log(fit.body)]
+    need = ['X = self._validate_input(X)', 'columns, univariates = self._fit_columns(X)', 'self.columns = columns',
+            'self.univariates = univariates']
+    pos = []
+    for text in need:
+        if fb.count(text) != 1:
+            raise Untranslatable(f'{GC_FILE}:{fit.lineno}', f'fit: expected exactly one `{text}`')
+        pos.append(fb.index(text))
+    if pos != sorted(pos):
+        raise Untranslatable(f'{GC_FILE}:{fit.lineno}', 'fit: validate / _fit_columns / store are not in this order')
+    stores = [n for n in ast.walk(cls) if isinstance(n, (ast.Assign, ast.AugAssign, ast.AnnAssign))
+              for t in (n.targets if isinstance(n, ast.Assign) else [n.target])
+              if _src(t) in ('self.columns', 'self.univariates')]
+    if len(stores) != 2:
+        raise Untranslatable(f'{GC_FILE}:{cls.lineno}', f'self.columns / self.univariates are assigned {len(stores)} times, expected 2 (in fit)')
+    vi = find_method(cls, '_validate_input')
+    vb = [_src(n) for n in _no_log(vi.body)]
+    if vb != ['if not isinstance(X, pd.DataFrame):\n    X = pd.DataFrame(X)', 'return X']:
+        raise Untranslatable(f'{GC_FILE}:{vi.lineno}', f'_validate_input body changed: {vb}')
+    return fn, fit, vi
+
+
 def generate(repo):
     report = []
     eps_term, eps_type = _epsilon(repo, report)
@@ -217,6 +274,10 @@ def generate(repo):
     report.append((GC_FILE, 'probability_density', pdf.lineno, pdf.end_lineno))
     cdf, cdf_kw = _density(cls, 'cumulative_distribution', 'cdf', [], optional=['allow_singular'])
     report.append((GC_FILE, 'cumulative_distribution', cdf.lineno, cdf.end_lineno))
+    fc, fit, vi = _fit_columns(cls)
+    report.append((GC_FILE, '_fit_columns', fc.lineno, fc.end_lineno))
+    report.append((GC_FILE, 'fit', fit.lineno, fit.end_lineno))
+    report.append((GC_FILE, '_validate_input', vi.lineno, vi.end_lineno))
     _not_overridden(cls, ('log_probability_density', 'pdf', 'cdf'))
     _base(repo, report)
 
@@ -342,6 +403,26 @@ def pdf (probabilityDensity : X → Except Err R) (x : X) : Except Err R := prob
 
 /-- `Multivariate.cdf`: `return self.cumulative_distribution(X)`. -/
 def cdf (cumulativeDistribution : X → Except Err R) (x : X) : Except Err R := cumulativeDistribution x
+end
+
+section
+variable {{L C D U : Type}}
+
+/-- `GaussianMultivariate._fit_columns` ({GC_FILE}:{fc.lineno}-{fc.end_lineno}); `items` = `X.items()`, the columns of
+    the (validated) training table in TABLE order:
+```
+columns = []; univariates = []
+for column_name, column in X.items():
+    distribution = self._get_distribution_for_column(column_name)
+    univariate = self._fit_column(column, distribution, column_name)
+    columns.append(column_name); univariates.append(univariate)
+return columns, univariates
+```
+    `fit` stores the pair as `self.columns, self.univariates`. -/
+def fitColumns (items : List (L × C)) (getDistributionForColumn : L → D) (fitColumn : C → D → L → U) :
+    List L × List U :=
+  items.foldl (fun acc lc => (acc.1 ++ [lc.1], acc.2 ++ [fitColumn lc.2 (getDistributionForColumn lc.1) lc.1]))
+    ([], [])
 end
 
 end CopVerif.Gen.GaussTransform
